@@ -118,26 +118,32 @@ def describe(st):
     return f'{cls}.{name}({a})'
 
 
+_P = {}
+
+
+def _dump_fn(rec, st, i):
+    if st['depth'] == 0:
+        return
+    what = _P['what']
+    rec.bump(f"actions_{what}:{st['act']['a']}")
+    ok = replay_state(rec, _P['cat'], _P['cls'], st, _P['pid'])
+    rec.traces += 1
+    a = st['act']
+    rec.case((what, json.dumps(st['act'], sort_keys=True), json.dumps(st['pre']['heap'], sort_keys=True)),
+             st['out'] != 'ok' or a['a'] != 'construct')
+    if ok and i % 7919 == 1:
+        rec.sample({'pre': st['pre']['heap'], 'act': st['act'], 'out': st['out']})
+
+
 def replay_dump(ctx, res, cat, cls, pid, what, stride=1):
-    n = 0
-    kinds = {}
-    for i, st in enumerate(parse_dump(res.dump_path, stride=stride)):
-        if st['depth'] == 0:
-            continue
-        kinds[st['act']['a']] = kinds.get(st['act']['a'], 0) + 1
-        ok = replay_state(ctx, cat, cls, st, pid)
-        n += 1
-        a = st['act']
-        ctx.case((what, json.dumps(st['act'], sort_keys=True), json.dumps(st['pre']['heap'], sort_keys=True)),
-                 st['out'] != 'ok' or a['a'] != 'construct')
-        if ok and n % 7919 == 1:
-            ctx.sample({'pre': st['pre']['heap'], 'act': st['act'], 'out': st['out']})
-    ctx.traces += n
+    from .. import par
+    _P.update(cat=cat, cls=cls, pid=pid, what=what)
+    before = ctx.traces
+    par.pmap_dump(ctx, _dump_fn, res.dump_path, stride=stride)
+    n = ctx.traces - before
     ctx.note(f'replayed_{what}', n)
-    ctx.note(f'actions_{what}', kinds)
-    for k in kinds:
-        if kinds[k] == 0:
-            raise tlc.TlcError(f'vacuous: action {k} never taken')
+    if n == 0:
+        raise tlc.TlcError(f'vacuous: no state of {what} was replayed')
 
 
 def run_model(ctx, what, cfg_text, cat, cls, pid, stride=1, timeout=1800):
@@ -201,9 +207,9 @@ def simulate(ctx, cfg_text, cat, cls, pid, num, depth, seed):
 def run(ctx):
     quick = ctx.tier == 'quick'
     cat, cls = objs.catalogue(), objs.classes()
-    run_model(ctx, 'params_all_classes', cfg('ClsQuick' if quick else 'ClsAll', 'ActsParams', 1, 2), cat, cls, 'C17', stride=9 if quick else 1)
-    run_model(ctx, 'meta_ops', cfg('ClsPoint', 'ActsMeta', 1, 3 if quick else 4), cat, cls, 'C17', stride=3 if quick else 1)
-    simulate(ctx, cfg('ClsFew', 'ActsAll', 1, 20), cat, cls, 'C17', 150 if quick else 3000, 21, ctx.seed + 17)
+    run_model(ctx, 'params_all_classes', cfg('ClsQuick' if quick else 'ClsAll', 'ActsParams', 1, 2), cat, cls, 'C17')
+    run_model(ctx, 'meta_ops', cfg('ClsPoint', 'ActsMeta', 1, 3 if quick else 4), cat, cls, 'C17')
+    simulate(ctx, cfg('ClsFew', 'ActsAll', 1, 20), cat, cls, 'C17', 80 if quick else 3000, 21, ctx.seed + 17)
     from . import lists
     lists.run(ctx, 'C17')
     ctx.assumptions += ['values are tokens from a catalogue per descriptor kind (0, negatives, NaN, inf, strings, None, lists, 0-d and 1-d arrays, '
